@@ -170,7 +170,8 @@ def run_check(prop, tier="quick", out=sys.stdout):
         if n < 4 and not inst.get("trivial"):
             per_rule_seen[inst["rule"]] = n + 1
             samples.append({k: v for k, v in inst.items() if k in ("rule", "fn", "instance", "site", "status", "what", "discharge", "config", "path")})
-    report_path = os.path.join(VERIF, "evidence", "%s.report.json" % prop)
+    evdir = os.environ.get("VERIF_EVIDENCE_DIR") or os.path.join(VERIF, "evidence")
+    report_path = os.path.join(evdir, "%s.report.json" % prop)
     ev = {
         "property_id": prop,
         "tier": tier,
@@ -195,8 +196,8 @@ def run_check(prop, tier="quick", out=sys.stdout):
         "wall_s": round(time.time() - t0, 2),
         "violations": len(violations),
     }
-    os.makedirs(os.path.join(VERIF, "evidence"), exist_ok=True)
-    with open(os.path.join(VERIF, "evidence", "%s.json" % prop), "w") as f:
+    os.makedirs(evdir, exist_ok=True)
+    with open(os.path.join(evdir, "%s.json" % prop), "w") as f:
         json.dump(ev, f, indent=1, sort_keys=True)
     if violations:
         with open(report_path, "w") as f:
